@@ -41,7 +41,7 @@ CHECKS["C04"] = {
 CHECKS["C05"] = {
     "text": "A finite product is enumerated completely: 39 probe functions (every signature {V,L,N}^n -> {V,L,N}, n<=2) + the 5 built-ins + an unknown name, each in 14 syntactic positions (test, under !, inside &&/||, in parentheses, either comparand, argument of a V/L/N parameter, inside nested filters) with 21 argument shapes per parameter; wrong arities; 400 operand pairs x 2 comparison operators; integers at bound-1/bound/bound+1 of three configured ranges in 14 index/slice slots. compile() on an environment holding the probe registry must succeed exactly when the reference typing judgement says so, must raise a JSONPathError otherwise, and must never call a registered function. 186 538 queries per run.",
     "ref": "DESIGN.md section 5, C05",
-    "note": "Trusted: mc/ref/typing.py (RFC 2.4.3) checked against the RFC well-typedness table in the self-test; R1 re-checks grammar membership of every reported query. One open known finding (F-C05-1).",
+    "note": "Trusted: mc/ref/typing.py (RFC 2.4.3) checked against the RFC well-typedness table in the self-test; R1 re-checks grammar membership of every reported query.",
     "technique": T_EXH,
 }
 CHECKS["C09"] = {
@@ -71,7 +71,7 @@ CHECKS["C08"] = {
 CHECKS["C10"] = {
     "text": "Built-ins: 71 query shapes over length/count/value on array and object documents whose children cover every JSON kind, compared with the reference evaluator. Conversions: probe functions for all 39 signatures {V,L,N}^n -> {V,L,N} (n<=2) are registered on a real environment and in the reference model; for the full product of argument shapes per parameter type (10 V x 8 N x 8 L) and 4-5 placements the multiset of (function, received arguments) recorded by the real probes must equal the reference's (ValueType: literal / single value / NOTHING; NodesType: node list with the reference nodes; LogicalType: exactly True/False) and the selected nodes must agree.",
     "ref": "DESIGN.md section 5, C10",
-    "note": "Trusted: R3 call semantics. Argument shapes starting with '!' or '(' are excluded (open finding F-C05-1 makes them uncompilable).",
+    "note": "Trusted: R3 call semantics. ",
     "technique": T_EXH,
 }
 CHECKS["C11"] = {
